@@ -17,7 +17,7 @@
 From Coq Require Import List.
 From Algo.Grammar Require Import CFG.
 From Algo.C08 Require Import Model Spec ProofsBase ProofsLang1 ProofsLang2 ProofsLang3 ProofsLang4 ProofsLF ProofsELR Names NamesProofs.
-From Algo.C09 Require Import Model Concrete Proofs ProofsCNF ProofsVerify ProofsCycles ProofsELR ProofsCheckers ProofsLRSound.
+From Algo.C09 Require Import Model Concrete Proofs ProofsCNF ProofsVerify ProofsCycles ProofsELR ProofsCheckers ProofsLRSound SliceHeap ProofsFrame.
 Import ListNotations.
 
 Section C09.
@@ -225,6 +225,57 @@ Section C09.
     left_factor teqb neqb fresh G = Ok G' -> left_factored teqb neqb G' = true.
 End C09.
 
+(** * Frame: the receiver is equal to a clone taken before the call (slice-store model).
+
+    [h_del_prods app nullf ps st out] is the production loop of EliminateEmptyProductions on Go's
+    representation (Algo.C09.SliceHeap): bodies are slice headers over a store of backing arrays,
+    [app] is the way a symbol is appended to a partial body — the built-in [append] with an
+    arbitrary growth policy (the code before fix D08a) or [String.Append] (the code now).
+    Whatever [app] of the two, whatever the growth policy: no backing array that existed before
+    the call is written, hence every (head, body) the receiver — or a clone sharing its bodies,
+    as [Productions.Clone] does — holds denotes the same value afterwards. *)
+Theorem C09_frame_del :
+  forall {E N : Type} (d : E) (grow : nat -> nat -> nat) (nullf : E -> bool)
+         (ps G : list (N * hdr)) (st st' : list (list E)) (out out' : list (N * hdr)),
+    (h_del_prods (append d grow) nullf ps st out = (st', out') \/
+     h_del_prods append_copy nullf ps st out = (st', out')) ->
+    (forall p, In p G -> arr (snd p) < length st) ->
+    den st' G = den st G.
+Proof.
+  intros E N d grow nullf ps G st st' out out' [H|H] HG.
+  - exact (del_frame (append d grow) nullf ps G st out st' out' (append_ok d (length st) grow) H HG).
+  - exact (del_frame append_copy nullf ps G st out st' out' (append_copy_ok (length st)) H HG).
+Qed.
+
+(** With [String.Append] (the fixed code) the loop computes exactly the bodies of the value-level
+    model ([p_expand] is [Algo.C08.Model.expand], [p_expand_model]) and only allocates. *)
+Theorem C09_del_heap_fixed_correct :
+  forall {E : Type} (nullf : E -> bool) (b : list E) (bodies : list hdr) (st st' : list (list E)) hs,
+    Forall (hvalid st) bodies -> h_expand append_copy nullf b bodies st = (st', hs) ->
+    (exists e, st' = st ++ e) /\ map (read st') hs = p_expand nullf b (map (read st) bodies).
+Proof.
+  intros E nullf b bodies st st' hs Hv H.
+  destruct (h_expand_copy nullf b bodies st st' hs Hv H) as (He & _ & Hm). split; [exact He | exact Hm].
+Qed.
+
+(** Before fix D08a: with the built-in [append] and Go's doubling growth, the body
+    1 2 3 4 5 6 with 1..5 nullable yields bodies that differ from the model's: the slices share
+    backing arrays from capacity 4 on, the full body 1 2 3 4 5 6 is lost and 1 2 3 5 5 6 appears
+    (the Go witness S -> A B C D E f gave A B C E E f). *)
+Theorem C09_D08a_refuted_before_fix :
+  let nullf := fun s : nat => s <? 6 in
+  let b := [1; 2; 3; 4; 5; 6] in
+  let r := h_expand (append 0 grow_double) nullf b [empty_slice] [] in
+  let got := map (read (fst r)) (snd r) in
+  let want := p_expand nullf b [[]] in
+  length got = 32 /\ got <> want /\ ~ In b got /\ In [1; 2; 3; 5; 5; 6] got /\ In b want.
+Proof.
+  vm_compute. repeat split; try discriminate.
+  - intros H. repeat (destruct H as [H|H]; [discriminate|]). exact H.
+  - repeat (first [left; reflexivity | right]).
+  - repeat (first [left; reflexivity | right]).
+Qed.
+
 Definition nm (c : N) : name := [c].
 
 (** D09b (known finding): the faithful model of LeftFactor refutes its post-condition:
@@ -282,5 +333,8 @@ Print Assumptions C09_left_recursion_semantic.
 Print Assumptions C09_cycles_semantic.
 Print Assumptions C09_no_empty_correct.
 Print Assumptions C09_all_reachable_correct.
+Print Assumptions C09_frame_del.
+Print Assumptions C09_del_heap_fixed_correct.
+Print Assumptions C09_D08a_refuted_before_fix.
 Print Assumptions C09_left_factor_post_refuted.
 Print Assumptions C09_del_verify_refuted.
